@@ -102,8 +102,9 @@ EXTRA = {
     "C04": "Also decided (shared with C03): a local variable named after a record item is initialised from the item of that name (numbered siblings K1/K2, I1/I2 included).",
     "C12": "Also decided: in Box.cpp every declaration, default look-up, range assertion and extent/offset assignment stays on one axis (i/NX/I*/[0], j/NY/J*/[1], k/NZ/K*/[2]).",
     "C16": "Also decided: in Math.hpp a result that starts as a copy of an Evaluation argument and has its value replaced also has its derivatives rewritten slot by slot, cleared, or is assigned a scalar.",
-    "C06": "Also decided: every connection selector of Well.cpp (WPIMULT, WELOPEN, COMPLUMP, WINJCLN, ...) compares the connection's I/J/K/completion number with the record item of that name, lower bounds with match_ge and upper bounds with match_le.",
-    "C11": "Also decided: a process-local pointer that the owner's serializeOp re-binds after unpacking (Well::unit_system in Schedule::serializeOp) is re-bound in every instance - the call sits in range-for loops over the whole containers.",
+    "C20": "Also decided: a range validator that rejects lo > hi tests the upper limit on hi; an integer taken from the deck is not used as a divisor without a zero test; the INCLUDE handler refuses a file that is already on the input stack and the record view is never extended across the end of the file it started in.",
+    "C06": "Also decided: every connection selector of Well.cpp (WPIMULT, WELOPEN, COMPLUMP, WINJCLN, ...) compares the connection's I/J/K/completion number with the record item of that name, lower bounds with match_ge and upper bounds with match_le; in the per-cell loops of COMPDAT/COMPTRAJ a quantity that is tested against its sentinel and defaulted from the current cell has been assigned earlier in the same iteration.",
+    "C11": "Also decided: a process-local pointer that the owner's serializeOp re-binds after unpacking (Well::unit_system in Schedule::serializeOp) is re-bound in every instance - the call sits in range-for loops over the whole containers; the four pack/unpack drivers of the generic Serializer reset operation, pointer map, counter and buffer before every pass over the data.",
 }
 
 NOT_APPLICABLE = {
